@@ -197,6 +197,13 @@ func (w *c19Worker) lateAnswerProbe(trace []string) bool {
 	if !w.quiesce(trace) {
 		return false
 	}
+	// the rotation has dropped the member; the proxy loop learns of it through an event of its
+	// own. The late answer is only late once the loop has taken that event: let the idle loop
+	// take it, then pass a whole round of requests through the loop.
+	time.Sleep(30 * time.Millisecond)
+	if !w.dispatchProbe(trace) {
+		return false
+	}
 	// its answer, built from what it received
 	req, err := sip.Read(raw)
 	if err != nil {
